@@ -8,7 +8,9 @@ CONSTANTS
   MaxRandSize = 0
   MaxRandBig = 0
   TocBytes = {0, 217, 99}
-  B1s = {3}
+  B1s = {3, 13, 0}
+  Empties = TRUE
+  Bufs = {"fresh"}
   ChCfgs <- ChTwo
   TagCfgs <- TagTwo
   Rates <- RatesOne
